@@ -36,14 +36,14 @@ def sweep_parallel(n, only):
     for w, p in procs:
         p.wait()
         for l in open(f"{w}/verif/seeded/RESULTS.md"):
-            if l.startswith("| C"):
+            if l.startswith("| C") or l.startswith("| harmless"):
                 rows.append(l)
     with open(f"{ROOT}/seeded/RESULTS.md", "w") as f:
         f.write("# Seeded changes vs. checks (written by tools/seed_sweep.py)\n\n| seed | property | result | first message | s |\n|---|---|---|---|---|\n")
         f.writelines(sorted(rows))
     for i in range(n):
         sh(f"git -C /repo worktree remove --force {base}/w{i}/repo; rm -rf {base}/w{i}")
-    missed = [r for r in rows if "MISSED" in r]
+    missed = [r for r in rows if "MISSED" in r or "ALARM" in r]
     print(f"{len(rows)} seeds, {len(missed)} missed")
     for r in missed:
         print(r.strip())
@@ -61,12 +61,26 @@ def main():
         p = f"{ROOT}/seeded/{d}/patch.diff"
         if not os.path.exists(p) or (only and not any(d.startswith(o) for o in only)):
             continue
-        prop = json.load(open(f"{ROOT}/seeded/{d}/meta.json")).get("breaks_property", d[:3])
+        meta = json.load(open(f"{ROOT}/seeded/{d}/meta.json"))
+        prop = meta.get("breaks_property") or d[:3]
         r = sh(f"git -C {REPO} apply {p}")
         if r.returncode != 0:
             rows.append((d, prop, "patch does not apply", "", 0)); continue
         try:
             res = None
+            if meta.get("expect") == "silent":
+                # a behaviour-preserving rewrite: every quick check must stay silent
+                alarms, t0 = [], time.time()
+                for q in ["C%02d" % i for i in range(1, 19)]:
+                    r = sh(f"./check {q} --tier quick", cwd=ROOT)
+                    out = r.stdout + r.stderr
+                    v = [l for l in out.splitlines() if l.startswith("VIOLATION")]
+                    if r.returncode != 0 or v:
+                        nf = all(l.rstrip().endswith("no-failing-input-found") for l in v) if v else False
+                        alarms.append(q + ("(no-failing-input-found)" if nf else "(rc=%d)" % r.returncode if not v else "(CONCRETE)"))
+                rows.append((d, "all", "silent" if not alarms else "ALARM: " + " ".join(alarms), "", time.time() - t0))
+                print(rows[-1], flush=True)
+                continue
             for tier in ("quick", "thorough"):
                 t0 = time.time()
                 r = sh(f"./check {prop} --tier {tier}", cwd=ROOT)
@@ -91,8 +105,8 @@ def main():
         f.write("# Seeded changes vs. checks (written by tools/seed_sweep.py)\n\n| seed | property | result | first message | s |\n|---|---|---|---|---|\n")
         for d, prop, res, msg, t in rows:
             f.write(f"| {d} | {prop} | {res} | {msg.replace('|', '/')} | {t:.0f} |\n")
-    missed = [r for r in rows if r[2] == "MISSED"]
-    print(f"{len(rows)} seeds, {len(missed)} missed")
+    missed = [r for r in rows if r[2] == "MISSED" or r[2].startswith("ALARM")]
+    print(f"{len(rows)} seeds, {len(missed)} missed / false alarms")
     return 1 if missed else 0
 
 if __name__ == "__main__":
